@@ -113,12 +113,12 @@ def shards(tier, seed):
                         "name": f"exh-{nit}-{part}"})
     for i, nit in enumerate(("float", "float", "decimal", "fraction") if q else
                             ("float", "float", "decimal", "decimal", "fraction", "fraction")):
-        out.append({"kind": "comp", "nit": nit, "name": f"comp-{nit}-{i}", "n": 2500 if q else 22000})
+        out.append({"kind": "comp", "nit": nit, "name": f"comp-{nit}-{i}", "n": 2000 if q else 22000})
     for i, nit in enumerate(("float", "float", "decimal", "fraction") if q else
                             ("float", "float", "decimal", "decimal", "fraction", "fraction")):
-        out.append({"kind": "qty", "nit": nit, "name": f"qty-{nit}-{i}", "n": 1500 if q else 14000})
+        out.append({"kind": "qty", "nit": nit, "name": f"qty-{nit}-{i}", "n": 1200 if q else 14000})
     for i in range(2 if q else 4):
-        out.append({"kind": "cfg", "nit": "float", "name": f"cfg-{i}", "n": 50 if q else 450})
+        out.append({"kind": "cfg", "nit": "float", "name": f"cfg-{i}", "n": 40 if q else 450})
     return out
 
 
